@@ -15,8 +15,10 @@ theorem C12_rules_eq_gen : Peephole.rules = Gen.peepholeRules := by decide
 
 /-! ### label restart -/
 
-theorem after_spanDrops (l : Nat) (r : List IL) : after l (spanDrops r).2 = after l r := by
-  fun_induction spanDrops r <;> simp_all [after]
+theorem after_spanDropsK (k l : Nat) (r : List IL) : after l (spanDropsK k r).2 = after l r := by
+  fun_induction spanDropsK k r <;> simp_all [after]
+
+theorem after_spanDrops (l : Nat) (r : List IL) : after l (spanDrops r).2 = after l r := after_spanDropsK _ l r
 
 theorem after_spanEq (l : Nat) (i : Sym) (hi : isLoad i = true) (r : List IL) :
     after l (spanEq i r).2 = after l r := by
@@ -61,10 +63,12 @@ theorem wd_suffix {s l : List IL} (hs : s <:+ l) (h : wellDelimited l = true) : 
     · exact h
     · exact ih h' (wd_tail x l h)
 
-theorem spanDrops_suffix (r : List IL) : (spanDrops r).2 <:+ r := by
-  fun_induction spanDrops r
-  · next l r ih => exact List.IsSuffix.trans ih (List.suffix_cons _ _)
+theorem spanDropsK_suffix (k : Nat) (r : List IL) : (spanDropsK k r).2 <:+ r := by
+  fun_induction spanDropsK k r
+  · next k l r ih => exact List.IsSuffix.trans ih (List.suffix_cons _ _)
   · exact List.suffix_refl _
+
+theorem spanDrops_suffix (r : List IL) : (spanDrops r).2 <:+ r := spanDropsK_suffix _ r
 
 theorem spanEq_suffix (i : Sym) (r : List IL) : (spanEq i r).2 <:+ r := by
   fun_induction spanEq i r
@@ -85,11 +89,14 @@ theorem after_suffix (l : Nat) (p : List IL) : after l p <:+ p := by
   · next x r h ih => exact List.IsSuffix.trans ih (List.suffix_cons _ _)
   · exact List.suffix_refl _
 
+theorem spanDropsK_eq (k : Nat) (r : List IL) :
+    r.map Prod.fst = List.replicate (spanDropsK k r).1 Sym.Drop ++ (spanDropsK k r).2.map Prod.fst := by
+  fun_induction spanDropsK k r with
+  | case1 k l r ih => simpa [List.replicate_succ] using ih
+  | case2 k r h => simp
+
 theorem spanDrops_eq (r : List IL) :
-    r.map Prod.fst = List.replicate (spanDrops r).1 Sym.Drop ++ (spanDrops r).2.map Prod.fst := by
-  fun_induction spanDrops r with
-  | case1 l r ih => simpa [List.replicate_succ] using ih
-  | case2 r h => simp
+    r.map Prod.fst = List.replicate (spanDrops r).1 Sym.Drop ++ (spanDrops r).2.map Prod.fst := spanDropsK_eq _ r
 
 theorem spanEq_eq (i : Sym) (r : List IL) :
     r.map Prod.fst = List.replicate (spanEq i r).1.length i ++ (spanEq i r).2.map Prod.fst := by
@@ -453,10 +460,13 @@ def sample : List IL :=
    (.SetLocal 2, 4), (.Drop, 4), (.GetLocal 2, 5), (.GetPropByName 7, 5), (.PropertySlot, 5), (.Call 0, 5),
    (.Jump 3, 6), (.Nil, 6), (.Label 3, 7), (.GetSuper 9, 7), (.Call 0, 7), (.Return, 8), (.Nil, 8)]
 
-example : wellDelimited sample = true ∧ dropRunsOk sample = true := by decide
+example : wellDelimited sample = true := by decide
 example : opt sample =
   [(.GetLocal 1, 1), (.Dup, 1), (.Call 1, 1), (.DropN 3, 2), (.SetLocal 2, 4), (.Invoke 7 0, 5), (.InvokeSlot, 5),
    (.Jump 3, 6), (.Label 3, 7), (.SuperInvoke 9 0, 7), (.InvokeSlot, 7), (.Return, 8)] := by
-  simp [sample, opt, spanDrops, spanEq, skipDead, dups]
+  simp [sample, opt, spanDrops, spanDropsK, spanEq, skipDead, dups]
+
+/-- the merged operand always fits the `u8` of `DropN` (no envelope on the length of a run is needed any more) -/
+theorem C12_dropn_fits_u8 (r : List IL) : (spanDrops r).1 + 2 ≤ 255 := spanDrops_count r
 
 end LaytheVerif.C12
